@@ -138,6 +138,31 @@ def tight_lengths(rng, avail, nlines, lastlen, first_extra=0):
     return None
 
 
+# width classes of a designed table: a = the width available at its place (line width - what stands in front of
+# the text on that line), t = line width - 2 (the width of a description line, to which skool2asm fits tables)
+WCLS = ['a-3', 'a-2', 'a-1', 'a+0', 'a+1', 'a+2', 'a+3', 'mid', 't-1', 't+0', 't+1', 't+2']
+POSITIONS = ['first', 'after', 'before', 'between']      # block alone / after text / before text / between texts
+
+
+def table_target(cls, avail, top):
+    if cls == 'mid':
+        return (avail + top + 1) // 2
+    return (avail if cls[0] == 'a' else top) + int(cls[1:])
+
+
+def reg_avails(conf, regs):
+    """columns left for the description behind each register name: (skool2asm, sna2skool). Used only to design
+    inputs; the judgement measures the lines that come out."""
+    plen = max([len(r['prefix']) + 1 for r in regs if r['prefix']] + [0])
+    heads = [reg_head(r) for r in regs]
+    mi = max([h.find(':') for h in heads] + [-1])
+    out = []
+    for r, h in zip(regs, heads):
+        ind = max(len(h), mi + len(h) - h.find(':'))
+        out.append((conf['W'] - 3 - plen - len(' '.join(r['name'])), max(max(conf['W'] - 2, 10) - ind - 1, 10)))
+    return out
+
+
 class DocGen:
     """Builds one abstract document. All random choices come from self.rng."""
 
@@ -243,12 +268,68 @@ class DocGen:
                 out.append(self.text_para(avail, long_word=rng.random() < 0.08))
         return out
 
+    # -- blocks designed around a given width -----------------------------------------------------
+    def cell(self, width):
+        """words whose text (single blanks) is exactly `width` characters long"""
+        return self.words(fill(self.rng, width, maxw=14), plain=True)
+
+    def table_design(self, T, wrap=False):
+        """#TABLE whose unwrapped rendering in ASM mode is exactly T characters wide (columns + 3 per column + 1);
+        wrap: one column is marked :w and holds most of the width"""
+        rng = self.rng
+        ncols = rng.randint(1, 3)
+        while ncols > 1 and T - 3 * ncols - 1 < 3 * ncols:
+            ncols -= 1
+        S = max(ncols, T - 3 * ncols - 1)
+        wrapcol = rng.randrange(ncols) if wrap else None
+        if wrap:
+            widths = [rng.randint(1, max(1, min(8, (S - 1) // ncols))) for _ in range(ncols)]
+            widths[wrapcol] = S - sum(w for c, w in enumerate(widths) if c != wrapcol)
+        else:
+            cuts = sorted(rng.sample(range(1, S), ncols - 1)) if ncols > 1 else []
+            widths = [b - a for a, b in zip([0] + cuts, cuts + [S])]
+        header = rng.random() < 0.5
+        nrows = rng.randint(1, 3) + int(header)
+        full = [rng.randrange(nrows) for _ in range(ncols)]       # the row that makes the column as wide as planned
+        rows = []
+        for r in range(nrows):
+            rows.append([self.cell(widths[c] if full[c] == r else rng.randint(1, widths[c])) for c in range(ncols)])
+        return ('b', rng.choice(['', '', 'nowrap', 'wrapalign']), wrapcol, header, rows)
+
+    def list_design(self, avail, delta):
+        """#LIST whose items (bullet + blank + text in ASM mode) wrap tightly at avail, last line delta short of it"""
+        rng = self.rng
+        items = []
+        for _ in range(rng.randint(1, 3)):
+            lens = tight_lengths(rng, avail - 2, rng.randint(1, 3), max(1, avail - 2 - delta)) or self.rand_lens(1, 12)
+            items.append(self.words(lens, plain=True))
+        return ('l', rng.choice(['', '', 'nowrap', 'wrapalign']), items)
+
+    def around(self, block, avail, pos, delta=0):
+        """paragraph = [text] block [text]; the text wraps tightly at avail (text behind a block keeps one
+        leading blank in ASM mode)"""
+        rng = self.rng
+        chunks = []
+        if pos in ('after', 'between'):
+            lens = tight_lengths(rng, avail, rng.randint(1, 2), max(1, avail - delta)) or self.rand_lens(1, 8)
+            chunks.append(('t', self.words(lens, plain=True)))
+        chunks.append(block)
+        if pos in ('before', 'between'):
+            lens = tight_lengths(rng, avail, rng.randint(1, 2), max(2, avail - delta), first_extra=1) or self.rand_lens(1, 8)
+            chunks.append(('t', self.words(lens, plain=True)))
+        return chunks
+
+    def placed_block(self, cls, avail, top, wrap, pos, delta=0):
+        """a paragraph with a block for a place where `avail` columns are left of a line; top = line width - 2 = the
+        widest skool2asm renders a table. cls: width class of a table (WCLS) or 'list'"""
+        if cls == 'list':
+            return self.around(self.list_design(avail, delta), avail, pos, delta)
+        return self.around(self.table_design(table_target(cls, avail, top), wrap), avail, pos, delta)
+
     # -- registers -----------------------------------------------------------------------------
-    def registers(self):
+    def reg_heads(self, n, style):
         rng = self.rng
         regs = []
-        n = rng.choice([0, 0, 1, 2, 3, 4])
-        style = rng.choice(['none', 'long', 'short', 'mixed'])
         mode_out = False
         for i in range(n):
             prefix = ''
@@ -264,8 +345,54 @@ class DocGen:
                 name = ['r%d%s' % (self.nreg, rng.choice(['', 'h', 'xy'])), 'q%d' % self.nreg][:rng.randint(1, 2)]
             else:
                 name = ['r%d%s' % (self.nreg, rng.choice(['', 'h', 'xy']))]
-            desc = self.words(self.rand_lens(1, 30))
-            regs.append(dict(prefix=prefix, delim=delim, name=name, desc=desc))
+            regs.append(dict(prefix=prefix, delim=delim, name=name, para=None, cls='plain'))
+        return regs
+
+    def registers(self):
+        """random register section: plain descriptions, descriptions that end at / near the width left behind the
+        register name, descriptions with #TABLE / #LIST blocks of widths around that width"""
+        rng = self.rng
+        regs = self.reg_heads(rng.choice([0, 0, 1, 2, 3, 4]), rng.choice(['none', 'long', 'short', 'mixed']))
+        for reg, (aa, sa) in zip(regs, reg_avails(self.conf, regs)):
+            r = rng.random()
+            if r < 0.3:
+                cls = rng.choice(WCLS + ['list', 'list', 'list'])
+                wrap = rng.random() < 0.35
+                reg['para'] = self.placed_block(cls, aa, self.conf['W'] - 2, wrap, rng.choice(POSITIONS), rng.randrange(3))
+                reg['cls'] = 'list' if cls == 'list' else 'tab:%s:%s' % (cls, 'wrap' if wrap else 'exact')
+            elif r < 0.5:
+                tool, av = rng.choice([('asm', aa), ('skool', sa)])
+                lens = tight_lengths(rng, av, rng.randint(1, 3), max(1, av - rng.randrange(3)))
+                if lens:
+                    reg['para'] = [('t', self.words(lens))]
+                    reg['cls'] = 'tight-' + tool
+            if reg['para'] is None:
+                reg['para'] = [('t', self.words(self.rand_lens(1, 30)))]
+        return regs
+
+    def sweep_registers(self, s):
+        """register section of a sweep document (s = its seed): three tables whose widths are 3 of the 12 classes
+        WCLS around the width left behind the register name (s, s+4, s+8: every 4 consecutive widths/seeds see all
+        12; every triple has a class in the band (available, line width - 2]), one of them with a :w column; a list
+        and a plain description that end at / just short of that width"""
+        rng = self.rng
+        regs = self.reg_heads(5, ['none', 'long', 'short', 'mixed'][s % 4])
+        top = self.conf['W'] - 2
+        for i, (reg, (aa, sa)) in enumerate(zip(regs, reg_avails(self.conf, regs))):
+            pos = POSITIONS[(s + i) % 4]
+            if i < 3:
+                cls = WCLS[(s + 4 * i) % 12]
+                wrap = (s // 3) % 3 == i
+                reg['para'] = self.placed_block(cls, aa, top, wrap, pos, (s + i) % 3)
+                reg['cls'] = 'tab:%s:%s' % (cls, 'wrap' if wrap else 'exact')
+            elif i == 3:
+                reg['para'] = self.placed_block('list', aa, top, False, pos, s % 3)
+                reg['cls'] = 'list'
+            else:
+                tool, av = [('asm', aa), ('skool', sa)][s % 2]
+                lens = tight_lengths(rng, av, rng.randint(1, 3), max(1, av - (s // 2) % 3)) or self.rand_lens(1, 30)
+                reg['para'] = [('t', self.words(lens))]
+                reg['cls'] = 'tight-' + tool
         return regs
 
     # -- instructions and groups ----------------------------------------------------------------
@@ -334,7 +461,7 @@ class DocGen:
         variant = 'plain'
         if braces:
             ws, variant = self.brace_variant(ws, k)
-        return dict(ins=ins, words=ws, mid=[], tag=tag, variant=variant), addr
+        return dict(ins=ins, words=ws, mid=[], tag=tag, variant=variant, para=None, cls=''), addr
 
 
 def asm_avail(conf, ops):
@@ -376,7 +503,7 @@ def gen_doc(seed, docid, W, kind):
             # every 8th sweep document: a title with one word that cannot fit (the width exception + its warning)
             ent['title'] = g.text_para(pav, tight=docid % 3) if docid % 8 else g.text_para(pav, long_word=True)
             ent['desc'] = [g.text_para(pav, tight=d) for d in (0, 1, 2)]
-            ent['regs'] = g.registers()
+            ent['regs'] = g.sweep_registers(seed)
             ent['start'] = [g.text_para(pav, tight=(docid + 1) % 3)]
             ent['end'] = [g.text_para(pav, tight=(docid + 2) % 3)]
         else:
@@ -401,6 +528,10 @@ def gen_doc(seed, docid, W, kind):
             if docid % 8 == 1:
                 # every 8th sweep document: a two-instruction comment with '}' on its first and '{' on its last line
                 plans.append(dict(k=2, oplens=[8, 8], target=None, special='close-then-open'))
+            # an instruction-level comment with a block: a table whose width is at / around the width of the comment
+            # field (a-3..a+3 over the seeds and widths), or a list whose items end at / near it
+            plans.append(dict(k=1 + seed % 3, oplens=[rng.choice([6, 8, 10, 13]) for _ in range(1 + seed % 3)], target=None,
+                              block=WCLS[(seed // 2) % 7] if seed % 2 else 'list', wrap=False, pos=POSITIONS[(seed // 2) % 4]))
         else:
             for i in range(rng.randint(1, 6)):
                 k = rng.choice([1, 1, 1, 2, 2, 3, 4, 5, 6])
@@ -412,6 +543,8 @@ def gen_doc(seed, docid, W, kind):
                 plans.append(dict(k=k, oplens=oplens,
                                   target=('asm', rng.randrange(4), False) if t < 0.25
                                   else ('skool', rng.randrange(4), rng.random() < 0.4) if t < 0.5 else None))
+                if t >= 0.88:
+                    plans[-1].update(block=rng.choice(WCLS + ['list'] * 6), wrap=rng.random() < 0.3, pos=rng.choice(POSITIONS))
         # operation texts are needed to know the real widths
         groups = []
         a = addr
@@ -454,7 +587,15 @@ def gen_doc(seed, docid, W, kind):
             if p.get('special') == 'close-then-open':
                 lens = [5] * (3 + 3 * skool_avail(conf, opw) // 6)
                 braces = False
+            para = None
+            if p.get('block'):
+                para = g.placed_block(p['block'], asm_avail(conf, ops), W - 2, p['wrap'], p['pos'], seed % 3)
+                lens, braces, tag = [], False, 'block'
             grp, a = g.group(ordinal, a, k, p['oplens'], lens, braces=braces, tag=tag)
+            if para:
+                # in skool / control file syntax the comment is the token sequence of the paragraph
+                grp.update(para=para, words=flat(para), variant='block-list' if p['block'] == 'list' else 'block-table',
+                           cls='list' if p['block'] == 'list' else 'tab:%s:%s' % (p['block'], 'wrap' if p['wrap'] else 'exact'))
             if p.get('special') == 'close-then-open':
                 grp['words'][1] += '}'
                 grp['words'][-1] = '{' + grp['words'][-1]
@@ -612,7 +753,7 @@ def render_skool(doc, rng):
         if ent['regs']:
             sec = []
             for reg in ent['regs']:
-                lines = split_lines(rng, reg['desc'])
+                lines = split_lines(rng, flat(reg['para']))
                 sec.append(reg_head(reg) + ' ' + lines[0])
                 for line in lines[1:]:
                     sec.append('.' + ' ' * rng.choice([1, 1, 3]) + line)
@@ -682,7 +823,7 @@ def render_ctl(doc, rng):
         for p in ent['desc']:
             L.append('D %d %s' % (a0, ' '.join(flat(p))))
         for reg in ent['regs']:
-            L.append('R %d %s %s' % (a0, reg_head(reg), ' '.join(reg['desc'])))
+            L.append('R %d %s %s' % (a0, reg_head(reg), ' '.join(flat(reg['para']))))
         for p in ent['start']:
             L.append('N %d %s' % (a0, ' '.join(flat(p))))
         for grp in ent['groups']:
@@ -738,45 +879,64 @@ def table_minw(chunk, wcmin=10):
     return sum(widths) + 3 * ncols + 1
 
 
+def rendered(it, para, tool, words, st, tabs, head=None):
+    """Append what a reader of the ASM output / the HTML page sees of a paragraph to words: the words of its
+    texts, list items (behind a bullet in ASM mode) and one placeholder per table (its cells go to tabs).
+    st collects the words that must begin a line in ASM mode, [index, fixed words in front (bullet), 0].
+    head: number of words already standing on the first line (register name), None if the paragraph begins a line."""
+    first = True
+    for ch in para:
+        if ch[0] == 't':
+            if not first:
+                st.append([len(words) + 1, 0, 0])
+            words.extend(ch[1])
+        elif ch[0] == 'l':
+            for item in ch[2]:
+                if tool == 'asm':
+                    if first and head is not None:
+                        st[-1][1] = head + 1          # the bullet stands behind the register name
+                    else:
+                        st.append([len(words) + 1, 1, 0])
+                    words.append('*')
+                words.extend(item)
+                first = False
+        else:
+            if tool == 'asm' and not (first and head is not None):
+                st.append([len(words) + 1, 0, 0])
+            words.append(TABLE_TOKEN)
+            tabs.append(dict(cols=[it.codes(c, True) for c in table_cols(ch)], minw=table_minw(ch) if tool == 'asm' else 0))
+        first = False
+
+
 def exp_para(it, para, tool, sec):
     """expected P item of one paragraph for one tool"""
     words = []
-    st = [[1, 0, 0]]
+    st = []
     tabs = []
     if tool in ('skool', 'gen'):
+        st.append([1, 0, 0])
         chunks = skool_tokens(para)
         for toks, kind in chunks:
             if tool == 'skool' and len(chunks) > 1:
                 st.append([len(words) + 1, 0, 1 if kind == 'row:nowrap' else 0])
             words.extend(toks)
     else:
-        for ch in para:
-            if ch[0] == 't':
-                if words:
-                    st.append([len(words) + 1, 0, 0])
-                words.extend(ch[1])
-            elif ch[0] == 'l':
-                for item in ch[2]:
-                    if tool == 'asm':
-                        st.append([len(words) + 1, 1, 0])
-                        words.append('*')
-                    words.extend(item)
-            else:
-                if tool == 'asm':
-                    st.append([len(words) + 1, 0, 0])
-                words.append(TABLE_TOKEN)
-                tabs.append(dict(cols=[it.codes(c, True) for c in table_cols(ch)],
-                                 minw=table_minw(ch) if tool == 'asm' else 0))
+        rendered(it, para, tool, words, st, tabs)
+        st.append([1, 0, 0])
         if tool == 'html':
             st = [[1, 0, 0]]
-    seen = set()
-    st = [s for s in st if not (s[0] in seen or seen.add(s[0]))]
-    return dict(t='P', sec=sec, w=it.codes(words, True), st=st, dotc=0, tabs=tabs, k=0, ins=[], name='')
+    best = {}
+    for x in st:              # one entry per line start (with the larger number of fixed words)
+        if x[0] not in best or x[1] > best[x[0]][1]:
+            best[x[0]] = x
+    st = [best[k] for k in sorted(best)]
+    return dict(t='P', sec=sec, w=it.codes(words, True), st=st, dotc=0, tabs=tabs, k=0, ins=[], name='', cls=[])
 
 
 def exp_regs(it, regs, tool):
     words = []
     st = []
+    tabs = []
     if tool == 'html':
         mode = 'I'
         tagged = []
@@ -796,9 +956,14 @@ def exp_regs(it, regs, tool):
             head = reg_head(reg).split()
         st.append([len(words) + 1, len(head), 0])
         words.extend(head)
-        words.extend(reg['desc'])
-    return dict(t='P', sec=3, w=it.codes(words, True), st=st, dotc=1 if tool in ('skool', 'gen') else 0, tabs=[],
-                k=0, ins=[], name='regs')
+        if tool in ('asm', 'html'):
+            sub = []
+            rendered(it, reg['para'], tool, words, sub if tool == 'html' else st, tabs, head=len(head))
+        else:
+            # sna2skool wraps a register description as plain text: the tokens of the blocks, in order
+            words.extend(flat(reg['para']))
+    return dict(t='P', sec=3, w=it.codes(words, True), st=st, dotc=1 if tool in ('skool', 'gen') else 0, tabs=tabs,
+                k=0, ins=[], name='regs', cls=['reg:' + r['cls'] for r in regs])
 
 
 def expected(it, ent, tool):
@@ -818,9 +983,16 @@ def expected(it, ent, tool):
     for grp in ent['groups']:
         for p in grp['mid']:
             add(p, 5, 'mid')
-        items.append(dict(t='G', sec=0, w=it.codes(grp['words'], True), st=[], dotc=0, tabs=[], k=len(grp['ins']),
+        words, st, tabs = grp['words'], [], []
+        if grp['para'] and tool in ('asm', 'html'):
+            words = []
+            rendered(it, grp['para'], tool, words, st, tabs)
+            if tool == 'html':
+                st = []
+        items.append(dict(t='G', sec=0, w=it.codes(words, True), st=st, dotc=0, tabs=tabs, k=len(grp['ins']),
                           ins=[[i['addr'], it.intern('OP ' + i['op']), len(i['op'])] for i in grp['ins']],
-                          name='group:%s:%s:k%d' % (grp['tag'], grp['variant'], len(grp['ins']))))
+                          name='group:%s:%s:k%d' % (grp['tag'], grp['variant'], len(grp['ins'])),
+                          cls=['ins:' + grp['cls']] if grp['cls'] else []))
     for p in ent['end']:
         add(p, 6, 'end')
     return items
@@ -872,6 +1044,21 @@ def parse_warnings(err):
     return long_lines, tables, other
 
 
+BORDER = re.compile(r'^\+[-+]*\+$')       # a horizontal border of a table rendered by skool2asm
+
+
+def add_cells(it, tab, text):
+    """the words of one rendered table row '| a | b |' go to the columns of the table"""
+    cells = [c.split() for c in text.strip('|').split('|')]
+    if tab['cols'] is None:
+        tab['cols'] = [[] for _ in cells]
+    if len(cells) != len(tab['cols']):
+        tab['cols'].append([UNKNOWN])
+    else:
+        for c, ws in zip(tab['cols'], cells):
+            c.extend(it.codes(ws))
+
+
 def proj_asm(it, out, err, doc):
     """stdout + stderr of skool2asm -> per entry list of line records"""
     conf = doc['conf']
@@ -888,9 +1075,10 @@ def proj_asm(it, out, err, doc):
     for ei, chunk in enumerate(chunks_of([p for p, f in phys])):
         addr0 = doc['entries'][ei]['addr'] if ei < len(doc['entries']) else -1
         recs = []
-        tab = None
+        tab = itab = None
         for line in chunk:
             if line.startswith(';'):
+                itab = None
                 text = line[1:].strip()
                 if not text:
                     tab = None
@@ -905,31 +1093,46 @@ def proj_asm(it, out, err, doc):
                     r['cl'] = max(r['cl'], len(text))
                     r['fl'] = r['cl']
                     if text[0] == '|':
-                        cells = [c.split() for c in text.strip('|').split('|')]
-                        if tab['cols'] is None:
-                            tab['cols'] = [[] for _ in cells]
-                        if len(cells) != len(tab['cols']):
-                            tab['cols'].append([UNKNOWN])
-                        else:
-                            for c, ws in zip(tab['cols'], cells):
-                                c.extend(it.codes(ws))
+                        add_cells(it, tab, text)
                         r['cols'] = tab['cols']
                     r['warn'] = int((addr0, r['cl']) in table_warn)
                     continue
                 tab = None
                 toks = text.split()
+                if len(toks) > 1 and BORDER.match(toks[-1]):
+                    # the top border of a table behind other words (a register name): the table's line, the words
+                    # in front of it are its fixed part
+                    tab = dict(rec=line_rec('c', w=it.codes(toks[:-1]) + [it.code(TABLE_TOKEN)], tab=1, n=len(line),
+                                            wl=len(line), cl=len(toks[-1]), fl=len(toks[0]),
+                                            warn=int((addr0, len(toks[-1])) in table_warn)), cols=None)
+                    recs.append(tab['rec'])
+                    continue
                 recs.append(line_rec('c', w=it.codes(toks), n=len(line), wl=len(line), cl=len(text), fl=len(toks[0]),
                                      warn=int((len(line), line) in long_lines), lf=int(line in bare_lf)))
             else:
-                tab = None
                 left, sep, right = line.partition(';')
                 op = left.strip()
                 text = right.strip()
                 toks = text.split()
-                recs.append(line_rec('i', w=it.codes(toks), n=len(line) + 7 * line.count('\t'), wl=len(line),
-                                     cl=len(text), fl=len(toks[0]) if toks else 0,
-                                     op=opcode(it, op) if op else 0, warn=int((len(line), line) in long_lines),
-                                     lf=int(line in bare_lf)))
+                rec = line_rec('i', w=it.codes(toks), n=len(line) + 7 * line.count('\t'), wl=len(line),
+                               cl=len(text), fl=len(toks[0]) if toks else 0,
+                               op=opcode(it, op) if op else 0, warn=int((len(line), line) in long_lines),
+                               lf=int(line in bare_lf))
+                recs.append(rec)
+                if text[:1] in ('+', '|') and (itab is not None or BORDER.match(text)):
+                    # a table in the comment field: every row stays a row of its own (tab=1 the first, which stands
+                    # for the table and carries its cells; tab=2 the others), measured and warned about per row
+                    if itab is None:
+                        itab = dict(rec=rec, cols=None)
+                        rec.update(w=[it.code(TABLE_TOKEN)], tab=1)
+                    else:
+                        rec.update(w=[], tab=2)
+                    if text[0] == '|':
+                        add_cells(it, itab, text)
+                        itab['rec']['cols'] = itab['cols']
+                else:
+                    itab = None
+                tab = None
         entries.append(recs)
     return entries
 
@@ -1055,13 +1258,13 @@ def html_para(it, node):
     return words, tabs
 
 
-def html_para_lines(it, node):
+def html_para_lines(it, node, head=()):
     words, tabs = html_para(it, node)
     if not tabs:
-        return [line_rec('c', w=words)]
+        return [line_rec('c', w=list(head) + words)]
     # one pseudo line per run of words and one per table, so that every table line has its columns
     recs = []
-    run = []
+    run = list(head)
     t = 0
     for w in words:
         if w == it.code(TABLE_TOKEN):
@@ -1106,7 +1309,7 @@ def proj_html(it, page):
                         name = list(row.find('td', 'register'))
                         rdesc = list(row.find('td', 'register-desc'))
                         if name and rdesc:
-                            recs.append(line_rec('c', w=it.codes(name[0].text().split() + rdesc[0].text().split())))
+                            recs.extend(html_para_lines(it, rdesc[0], it.codes(name[0].text().split())))
             recs.append(line_rec('s'))
         else:
             addr = [t for t in tds if t.cls.startswith('address-')]
@@ -1121,13 +1324,17 @@ def proj_html(it, page):
                 a = -1
             rs = 0
             words = []
+            tabs = []
             if com:
                 try:
                     rs = int(com[0].attrs.get('rowspan', '0'))
                 except ValueError:
                     rs = -1
-                words = it.codes(com[0].text().split())
-            recs.append(line_rec('i', w=words, op=opcode(it, ' '.join(ins[0].text().split())), addr=a, rs=rs))
+                words, tabs = html_para(it, com[0])
+            # tables in the comment cell: placeholders among the words, the cells of the (first) table in cols
+            cols = (tabs[0] + [[UNKNOWN]] * (len(tabs) - 1)) if com and tabs else ()
+            recs.append(line_rec('i', w=words, op=opcode(it, ' '.join(ins[0].text().split())), addr=a, rs=rs,
+                                 tab=int(bool(cols)), cols=cols))
     return recs
 
 
@@ -1168,6 +1375,7 @@ def run_doc(doc, wd):
     it = Interner()
     it.intern('.')
     it.intern(TABLE_TOKEN)
+    it.intern('*')
     exp = {tool: [expected(it, ent, tool) for ent in doc['entries']] for tool in ('asm', 'html', 'skool', 'gen')}
     outs = {}
     excs = {}
@@ -1216,7 +1424,7 @@ def run_doc(doc, wd):
                 cwmin=conf['cwmin'] if tool == 'asm' else conf['scwmin'] if tool == 'skool' else 0,
                 ind=conf['indw'], iw=conf['iw'] if tool == 'asm' else conf['siw'],
                 eop=max(len(i['op']) for g in ent['groups'] for i in g['ins']),
-                dot=it.code('.'), exc=excs[tool], exp=exp[tool][ei], out=o,
+                dot=it.code('.'), bul=it.code('*'), exc=excs[tool], exp=exp[tool][ei], out=o,
                 extra=len(outs[tool]) - len(doc['entries']),
                 doc=dict(seed=doc['seed'], docid=doc['docid'], kind=doc['kind'], W=conf['W'], conf=conf)))
     return cases
